@@ -465,6 +465,8 @@ def trace_cases(ctx):
     for op in ["M:mark:-", "M:mark:cat", "C:cnt:42", "B:open:-"]:
         add("one-event", r.choice(["-", "p"]), [("t0" if op[0] != "C" else "-", [op])])
     add("pair", "-", [("-", ["B:a:c", "E"])])
+    add("memuse", "-", [("t0", ["R"])])
+    add("memuse-nested", "p", [("t0", ["B:a:-", "R", "M:m:-", "E", "R", "C:mem_like:5"]), ("t1", ["M:x:-", "R"])])
     add("pair-long", "p", [("t0", ["B:a:c", "S", "E", "C:v:1"])])
     for d in range(0, 6):
         add("nested-%d" % d, r.choice(["-", "proc"]), [("t0", nested(d, sleep_at=(d // 2 if d else None)))])
@@ -487,7 +489,7 @@ def trace_cases(ctx):
             for k in range(nt):
                 n = r.choice([1, 2, 3, 5, 8, 13, 30, 60]) if k == unnamed else r.choice([0, 1, 2, 3, 5, 8, 13, 30, 60])
                 ths.append(("-" if k == unnamed else r.choice(["t%d", "worker.%d", "T-%d"]) % k,
-                            gen_ops(r, n, maxdepth=r.choice([1, 3, 5]), close=r.random() < 0.8)))
+                            gen_ops(r, n, maxdepth=r.choice([1, 3, 5]), close=r.random() < 0.8) + (["R"] if r.random() < 0.2 else [])))
             add("random-%dthr" % nt, r.choice(["-", "proc", "a b"]) if False else r.choice(["-", "proc", "app-1.2"]), ths)
     # unbalanced histories (outside the property's quantifier; model correspondence only):
     add("stray-end-last", "-", [("t0", ["B:a:-", "E", "M:m:-", "B:b:-", "E", "E"])])
@@ -617,7 +619,24 @@ def expected_events(ops):
             ev.append(("i", f[1], None if f[2] == "-" else f[2], None))
         elif f[0] == "C":
             ev.append(("C", f[1], None, int(f[2])))
+        elif f[0] == "R":            # recordMemUse(): two counters, values from /proc (any unsigned number)
+            ev.append(("C", "rkTraceVirtMem_B", None, ANYNUM))
+            ev.append(("C", "rkTraceRssMem_B", None, ANYNUM))
     return ev
+
+
+class _AnyNum:
+    """matches any non-negative integer counter value"""
+    def __eq__(self, other):
+        return isinstance(other, int) and not isinstance(other, bool) and other >= 0
+    def __ne__(self, other):
+        return not self.__eq__(other)
+    def __repr__(self):
+        return "<any number>"
+    __hash__ = None
+
+
+ANYNUM = _AnyNum()
 
 
 NUM = r"-?(?:0|[1-9][0-9]*)(?:\.[0-9]+)?(?:[eE][+-]?[0-9]+)?"
@@ -724,6 +743,7 @@ def normalise(text):
     t = re.sub(r'("cpuUtilization":)' + NUM + "}", r"\g<1>0}", text)
     t = re.sub(r'("cat":"builtin","args":\{"value":)' + NUM + "}", r"\g<1>0}", t)
     t = re.sub(r'("name":"thread_name","args":\{"name":")[0-9]+("\})', r"\g<1>TID\g<2>", t)
+    t = re.sub(r'("name":"rkTrace(?:Virt|Rss)Mem_B","args":\{"value":)[0-9]+\}', r"\g<1>0}", t)
     return t, bad
 
 
@@ -747,10 +767,11 @@ def model_line(c, order, pid, infos):
         for o in ops:
             if o == "S":
                 continue
-            if offs[k] >= len(times):
-                return None
-            s += " %s:%d" % (o, times[offs[k]]) if o != "E" else " E:%d" % times[offs[k]]
-            offs[k] += 1
+            for o1 in (["C:rkTraceVirtMem_B:0", "C:rkTraceRssMem_B:0"] if o == "R" else [o]):
+                if offs[k] >= len(times):
+                    return None
+                s += " %s:%d" % (o1, times[offs[k]]) if o1 != "E" else " E:%d" % times[offs[k]]
+                offs[k] += 1
     if any(offs[k] != len(infos[groups[k]["members"][-1]][2]) for k in gid):
         return None
     return s
@@ -816,7 +837,7 @@ def shrink_trace(ctx, exe, c, od):
         if len(ops) > 4000:
             # too long for delta debugging: try the canonical script "n markers" and bisect the smallest n that
             # still fails (chunk-boundary defects fail from some event count on)
-            nev = sum(1 for o in ops if o != "S")
+            nev = len(expected_events(ops))
             with_k = lambda o, k=k, tn=tn: dict(cur, threads=cur["threads"][:k] + [(tn, o)] + cur["threads"][k + 1:])
             if fails(with_k(["M:m:-"] * nev)):
                 lo, hi = 0, nev            # fails at hi, assumed not to fail at lo
@@ -852,7 +873,7 @@ def shrink_chunk_overflow(ctx, exe, c, k, od, orig_info):
             return None, cc
         sizes, cap = res[0][1][0][0], res[0][1][0][1]
         return ((max(sizes), sizes, cap) if sizes and max(sizes) > CHUNK else None), cc
-    nev = sum(1 for o in c["threads"][k][1] if o != "S")
+    nev = len(expected_events(c["threads"][k][1]))
     info, cc = probe(nev)
     if info is None:
         return c, orig_info            # the canonical script does not reproduce it: report the original case
@@ -976,6 +997,17 @@ def run_trace(ctx, model, exe):
                 d = next((x for x in range(min(len(ntext), len(mtext))) if ntext[x] != mtext[x]), min(len(ntext), len(mtext)))
                 ctx.broken.append("correspondence C20 saveLog model vs real code, case %s: first difference at byte %d: file %r / model %r; chunk sizes %s / %s "
                                   "(the file passes the independent reader)" % (c["tag"], d, ntext[max(0, d - 40):d + 40], mtext[max(0, d - 40):d + 40], hs, msizes))
+    oph = {"B": 0, "E": 0, "M": 0, "C": 0, "R": 0, "name": 0, "threads": 0, "case": len(res)}
+    for i in range(len(res)):
+        for tn, ops in cases[i]["threads"]:
+            if tn != "-":
+                oph["name"] += 1
+            if tn != "-" or any(o != "S" for o in ops):
+                oph["threads"] += 1
+            for o in ops:
+                if o[0] in oph:
+                    oph[o[0]] += 1
+    ctx.cov["trace_op_histogram"] = oph
     ctx.cov["trace_cases"] = hist
     ctx.cov["trace_mismatches"] = ncorr
     ctx.cov["trace_long_intervals_seen"] = nlong
@@ -1030,6 +1062,184 @@ def run_race(ctx, exe_tsan):
     ctx.cov["concurrent_first_events_tsan"] = stat
 
 
+# ------------------------------------------------------------------ inventory closure
+# Every declaration of utility/SaveImage.h and tracing/Tracing.{h,cpp} (clang AST + #define lines, re-read on every run; implicit special
+# members, template instantiations and specializations included) -> the theorems / source-derived obligations about it and the harness
+# operations that execute it (img:<format> image cases of that writer; tr:B/E/M/C/R recorded events by kind, R = recordMemUse; tr:name
+# setThreadName; tr:threads registered threads; tr:case saveLog calls; tr:long intervals > 100 us; tr:chunkfull full chunks; race = TSan
+# rounds), or the reason it lies outside the property.
+COVER = {
+    "ThreadEventList::ThreadEventList void () noexcept [implicit] [=default]":
+        {"by": ["registry_keeps_every_event", "facts_trace_match"], "ops": ["tr:threads"]},
+    "ThreadEventList::ThreadEventList void (const rkcommon::tracing::ThreadEventList &) noexcept(false) [implicit] [=default]":
+        {"out": "a ThreadEventList lives behind a shared_ptr created by getThreadTraceList and is never copied, moved or assigned by the library (facts_trace_match: getThreadTraceList shape)"},
+    "ThreadEventList::ThreadEventList void (rkcommon::tracing::ThreadEventList &&) noexcept [implicit] [=default]":
+        {"out": "a ThreadEventList lives behind a shared_ptr created by getThreadTraceList and is never copied, moved or assigned by the library (facts_trace_match: getThreadTraceList shape)"},
+    "ThreadEventList::beginEvent void (const char *, const char *)":
+        {"by": ["savelog_complete", "savelog_nesting", "facts_trace_match"], "ops": ["tr:B"]},
+    "ThreadEventList::endEvent void ()":
+        {"by": ["savelog_complete", "savelog_nesting", "facts_trace_match"], "ops": ["tr:E"]},
+    "ThreadEventList::getCachedString const char *(const char *)":
+        {"by": ["string_cache_faithful", "string_cache_hit", "string_cache_miss", "facts_trace_model"], "ops": ["tr:B", "tr:M", "tr:C", "tr:R"]},
+    "ThreadEventList::getCurrentEventList std::vector<TraceEvent> &()":
+        {"by": ["chunks_concat", "chunks_never_reallocate", "facts_trace_model"], "ops": ["tr:B", "tr:E", "tr:M", "tr:C", "tr:R"]},
+    "ThreadEventList::operator= rkcommon::tracing::ThreadEventList &(const rkcommon::tracing::ThreadEventList &) noexcept(false) [implicit] [=default]":
+        {"out": "a ThreadEventList lives behind a shared_ptr created by getThreadTraceList and is never copied, moved or assigned by the library (facts_trace_match: getThreadTraceList shape)"},
+    "ThreadEventList::operator= rkcommon::tracing::ThreadEventList &(rkcommon::tracing::ThreadEventList &&) noexcept [implicit] [=default]":
+        {"out": "a ThreadEventList lives behind a shared_ptr created by getThreadTraceList and is never copied, moved or assigned by the library (facts_trace_match: getThreadTraceList shape)"},
+    "ThreadEventList::setCounter void (const char *, const uint64_t)":
+        {"by": ["savelog_complete", "facts_trace_match"], "ops": ["tr:C", "tr:R"]},
+    "ThreadEventList::setMarker void (const char *, const char *)":
+        {"by": ["savelog_complete", "facts_trace_match"], "ops": ["tr:M"]},
+    "ThreadEventList::~ThreadEventList void () noexcept [implicit] [=default]":
+        {"by": ["registry_keeps_every_event"], "ops": ["tr:case"]},
+    "TraceEvent::TraceEvent void ()":
+        {"by": ["savelog_complete"], "ops": ["tr:B", "tr:E", "tr:M", "tr:C", "tr:R"]},
+    "TraceEvent::TraceEvent void (const rkcommon::tracing::EventType)":
+        {"by": ["savelog_complete"], "ops": ["tr:E", "tr:B", "tr:M", "tr:C", "tr:R"]},
+    "TraceEvent::TraceEvent void (const rkcommon::tracing::EventType, const char *, const char *)":
+        {"by": ["savelog_complete", "facts_trace_match"], "ops": ["tr:B", "tr:M", "tr:C", "tr:R"]},
+    "TraceEvent::TraceEvent void (const rkcommon::tracing::EventType, const char *, const uint64_t)":
+        {"by": ["savelog_complete", "facts_trace_match"], "ops": ["tr:C", "tr:R"]},
+    "TraceEvent::TraceEvent void (const rkcommon::tracing::TraceEvent &) noexcept [implicit] [=default]":
+        {"out": "events are constructed in place / moved into their chunk and never copied or assigned afterwards (chunks_never_reallocate: no reallocation); trivially copyable aggregate"},
+    "TraceEvent::TraceEvent void (rkcommon::tracing::TraceEvent &&) noexcept [implicit] [=default]":
+        {"by": ["chunks_never_reallocate"], "ops": ["tr:B", "tr:E", "tr:M", "tr:C", "tr:R"]},
+    "TraceEvent::operator= rkcommon::tracing::TraceEvent &(const rkcommon::tracing::TraceEvent &) noexcept [implicit] [=default]":
+        {"out": "events are constructed in place / moved into their chunk and never copied or assigned afterwards (chunks_never_reallocate: no reallocation); trivially copyable aggregate"},
+    "TraceEvent::operator= rkcommon::tracing::TraceEvent &(rkcommon::tracing::TraceEvent &&) noexcept [implicit] [=default]":
+        {"out": "events are constructed in place / moved into their chunk and never copied or assigned afterwards (chunks_never_reallocate: no reallocation); trivially copyable aggregate"},
+    "TraceEvent::~TraceEvent void () noexcept [implicit] [=default]":
+        {"by": ["chunks_concat"], "ops": ["tr:B", "tr:E", "tr:M", "tr:C", "tr:R"]},
+    "TraceRecorder::TraceRecorder void () noexcept [implicit] [=default]":
+        {"by": ["registry_keeps_every_event"], "ops": ["tr:case"]},
+    "TraceRecorder::TraceRecorder void (const rkcommon::tracing::TraceRecorder &) [implicit] [=deleted]":
+        {"out": "implicitly deleted (std::mutex member): the recorder cannot be copied or moved"},
+    "TraceRecorder::TraceRecorder void (rkcommon::tracing::TraceRecorder &&) [implicit] [=deleted]":
+        {"out": "implicitly deleted (std::mutex member): the recorder cannot be copied or moved"},
+    "TraceRecorder::getThreadTraceList std::shared_ptr<ThreadEventList> (const std::thread::id &)":
+        {"by": ["registry_keeps_every_event", "registry_one_entry_per_id", "facts_trace_model"], "ops": ["tr:threads", "race"]},
+    "TraceRecorder::operator= rkcommon::tracing::TraceRecorder &(const rkcommon::tracing::TraceRecorder &) [implicit] [=deleted]":
+        {"out": "implicitly deleted (std::mutex member): the recorder cannot be copied or moved"},
+    "TraceRecorder::operator= rkcommon::tracing::TraceRecorder &(rkcommon::tracing::TraceRecorder &&) [implicit] [=deleted]":
+        {"out": "implicitly deleted (std::mutex member): the recorder cannot be copied or moved"},
+    "TraceRecorder::saveLog void (const char *, const char *)":
+        {"by": ["savelog_wellformed", "savelog_complete", "savelog_nesting", "savelog_complete_registry", "facts_trace_match"], "ops": ["tr:case", "race"]},
+    "TraceRecorder::~TraceRecorder void () noexcept [implicit] [=default]":
+        {"by": ["registry_keeps_every_event"], "ops": ["tr:case"]},
+    "beginEvent void (const char *, const char *)":
+        {"by": ["savelog_complete", "facts_trace_match"], "ops": ["tr:B", "race"]},
+    "class ThreadEventList":
+        {"by": ["facts_trace_match"], "ops": ["tr:B", "tr:E", "tr:M", "tr:C", "tr:R"]},
+    "class TraceEvent":
+        {"by": ["facts_trace_match"], "ops": ["tr:B", "tr:E", "tr:M", "tr:C", "tr:R"]},
+    "class TraceRecorder":
+        {"by": ["facts_trace_match"], "ops": ["tr:B", "tr:E", "tr:M", "tr:C", "tr:R"]},
+    "cpuUtilization float (const rkcommon::tracing::TraceEvent &, const rkcommon::tracing::TraceEvent &)":
+        {"by": ["savelog_wellformed", "savelog_nesting"], "ops": ["tr:E"]},
+    "endEvent void ()":
+        {"by": ["savelog_complete"], "ops": ["tr:E", "race"]},
+    "enum EventType {INVALID, BEGIN, END, MARKER, COUNTER}":
+        {"by": ["facts_trace_match"], "ops": ["tr:B", "tr:E", "tr:M", "tr:C", "tr:R"]},
+    "field ThreadEventList::events std::list<std::vector<TraceEvent>>":
+        {"by": ["chunks_concat", "chunks_never_reallocate", "facts_trace_model"], "ops": ["tr:B", "tr:E", "tr:M", "tr:C", "tr:R"]},
+    "field ThreadEventList::stringCache std::unordered_map<const char *, std::shared_ptr<std::string>>":
+        {"by": ["string_cache_faithful", "facts_trace_model"], "ops": ["tr:B", "tr:M", "tr:C", "tr:R"]},
+    "field ThreadEventList::threadName std::string":
+        {"by": ["savelog_wellformed"], "ops": ["tr:name"]},
+    "field TraceEvent::category const char *":
+        {"by": ["savelog_complete", "string_cache_faithful"], "ops": ["tr:B", "tr:M"]},
+    "field TraceEvent::counterValue uint64_t":
+        {"by": ["savelog_complete"], "ops": ["tr:C", "tr:R"]},
+    "field TraceEvent::name const char *":
+        {"by": ["savelog_complete"], "ops": ["tr:B", "tr:E", "tr:M", "tr:C", "tr:R"]},
+    "field TraceEvent::ru_stime timeval":
+        {"by": ["savelog_wellformed"], "ops": ["tr:long"]},
+    "field TraceEvent::ru_utime timeval":
+        {"by": ["savelog_wellformed"], "ops": ["tr:long"]},
+    "field TraceEvent::time std::chrono::steady_clock::time_point":
+        {"by": ["savelog_complete"], "ops": ["tr:B", "tr:E", "tr:M", "tr:C", "tr:R"]},
+    "field TraceEvent::type rkcommon::tracing::EventType":
+        {"by": ["savelog_complete"], "ops": ["tr:B", "tr:E", "tr:M", "tr:C", "tr:R"]},
+    "field TraceRecorder::threadTrace std::unordered_map<std::thread::id, std::shared_ptr<ThreadEventList>>":
+        {"by": ["registry_keeps_every_event", "registry_one_entry_per_id", "facts_trace_model"], "ops": ["tr:threads"]},
+    "field TraceRecorder::threadTraceMutex std::mutex":
+        {"by": ["facts_trace_match"], "ops": ["race", "tr:threads"]},
+    "getProcMemUse void (uint64_t &, uint64_t &)":
+        {"by": ["savelog_wellformed"], "ops": ["tr:R"]},
+    "getProcStatus std::string ()":
+        {"out": "returns the text of /proc/self/status; not called by the recording functions or saveLog and nothing of it reaches the log"},
+    "initThreadEventList void ()":
+        {"by": ["registry_keeps_every_event", "facts_trace_match"], "ops": ["tr:threads", "race"]},
+    "macro RKCOMMON_ENABLE_PROFILING => <nothing> [Tracing.cpp]":
+        {"by": ["savelog_complete"], "ops": ["tr:M"]},
+    "macro RKCOMMON_IF_TRACING_ENABLED(CMD) => <nothing> [Tracing.h, under else of ifdef RKCOMMON_ENABLE_PROFILING]":
+        {"out": "the disabled form of the macro: with profiling compiled out nothing is recorded, which the property (about what saveLog writes for recorded events) does not speak about"},
+    "macro RKCOMMON_IF_TRACING_ENABLED(CMD) => CMD [Tracing.h, under ifdef RKCOMMON_ENABLE_PROFILING]":
+        {"by": ["savelog_complete"], "ops": ["tr:M"]},
+    "macro THREAD_EVENT_CHUNK_SIZE => 8192 [Tracing.cpp]":
+        {"by": ["chunks_concat", "facts_trace_model"], "ops": ["tr:chunkfull"]},
+    "operator<< std::ostream &(std::ostream &, const rkcommon::tracing::EventType &)":
+        {"by": ["savelog_wellformed", "savelog_complete"], "ops": ["tr:B", "tr:E", "tr:M", "tr:C", "tr:R"]},
+    "recordMemUse void ()":
+        {"by": ["savelog_complete", "savelog_wellformed"], "ops": ["tr:R"]},
+    "saveLog void (const char *, const char *)":
+        {"by": ["savelog_wellformed", "savelog_complete", "savelog_nesting", "savelog_complete_registry", "facts_trace_match"], "ops": ["tr:case", "race"]},
+    "setCounter void (const char *, uint64_t)":
+        {"by": ["savelog_complete", "facts_trace_match"], "ops": ["tr:C", "race"]},
+    "setMarker void (const char *, const char *)":
+        {"by": ["savelog_complete", "facts_trace_match"], "ops": ["tr:M", "race"]},
+    "setThreadName void (const char *)":
+        {"by": ["savelog_wellformed", "facts_trace_match"], "ops": ["tr:name"]},
+    "variable threadEventList std::shared_ptr<ThreadEventList> thread_local":
+        {"by": ["facts_trace_match", "registry_keeps_every_event"], "ops": ["tr:threads", "race"]},
+    "variable traceRecorder std::unique_ptr<TraceRecorder>":
+        {"by": ["registry_keeps_every_event"], "ops": ["tr:case"]},
+    "writeImage void (const std::string &, const char *const, const int, const int, const PIXEL_T *const) [template]":
+        {"by": ["image_decode", "image_reads_in_bounds", "facts_image_loop_nest", "facts_image_index", "facts_image_stack_one_row"], "ops": ["img:PPM", "img:PGM", "img:PFM1", "img:PFM3", "img:PFM3a", "img:PFM4"]},
+    "writeImage void (const std::string &, const char *const, const int, const int, const float *const) [instantiation <float, 1, float, 1, 0>]":
+        {"by": ["image_decode", "image_reads_in_bounds", "facts_image_formats"], "ops": ["img:PFM1"]},
+    "writeImage void (const std::string &, const char *const, const int, const int, const rkcommon::math::vec_t<float, 3, false, void> *const) [instantiation <float, 3, rkcommon::math::vec_t<float, 3, false, void>, 3, 0>]":
+        {"by": ["image_decode", "image_reads_in_bounds", "facts_image_formats"], "ops": ["img:PFM3"]},
+    "writeImage void (const std::string &, const char *const, const int, const int, const rkcommon::math::vec_t<float, 3, true, void> *const) [instantiation <float, 3, rkcommon::math::vec_t<float, 3, true, void>, 4, 0>]":
+        {"by": ["image_decode", "image_reads_in_bounds", "facts_image_formats"], "ops": ["img:PFM3a"]},
+    "writeImage void (const std::string &, const char *const, const int, const int, const rkcommon::math::vec_t<float, 4, false, void> *const) [instantiation <float, 4, rkcommon::math::vec_t<float, 4, false, void>, 4, 0>]":
+        {"by": ["image_decode", "image_reads_in_bounds", "facts_image_formats"], "ops": ["img:PFM4"]},
+    "writeImage void (const std::string &, const char *const, const int, const int, const unsigned int *const) [instantiation <unsigned char, 1, unsigned int, 4, 1>]":
+        {"by": ["image_decode", "image_reads_in_bounds", "facts_image_formats"], "ops": ["img:PGM"]},
+    "writeImage void (const std::string &, const char *const, const int, const int, const unsigned int *const) [instantiation <unsigned char, 3, unsigned int, 4, 1>]":
+        {"by": ["image_decode", "image_reads_in_bounds", "facts_image_formats"], "ops": ["img:PPM"]},
+    "writePFM void (const std::string &, const int, const int, const T *) [template] [deleted]":
+        {"out": "deleted primary template: writePFM of any other pixel type does not compile; nothing to run"},
+    "writePFM void (const std::string &, const int, const int, const float *) [specialization <float>]":
+        {"by": ["image_decode", "facts_image_formats"], "ops": ["img:PFM1"]},
+    "writePFM void (const std::string &, const int, const int, const rkcommon::math::vec3f *) [specialization <rkcommon::math::vec_t<float, 3, false, void>>]":
+        {"by": ["image_decode", "facts_image_formats"], "ops": ["img:PFM3"]},
+    "writePFM void (const std::string &, const int, const int, const rkcommon::math::vec3fa *) [specialization <rkcommon::math::vec_t<float, 3, true, void>>]":
+        {"by": ["image_decode", "facts_image_formats"], "ops": ["img:PFM3a"]},
+    "writePFM void (const std::string &, const int, const int, const rkcommon::math::vec4f *) [specialization <rkcommon::math::vec_t<float, 4, false, void>>]":
+        {"by": ["image_decode", "facts_image_formats"], "ops": ["img:PFM4"]},
+    "writePGM void (const std::string &, const int, const int, const uint32_t *)":
+        {"by": ["image_decode", "facts_image_formats"], "ops": ["img:PGM"]},
+    "writePPM void (const std::string &, const int, const int, const uint32_t *)":
+        {"by": ["image_decode", "facts_image_formats"], "ops": ["img:PPM"]},
+}
+
+
+def inventory_check(ctx, counts):
+    try:
+        inv = factgen.inventory(ctx.repo, os.path.join(ctx.build, "ast"))
+    except Exception as ex:   # noqa
+        ctx.broken.append("inventory: extraction failed: %r" % (ex,))
+        return
+    problems, report = factgen.sxast.cover_check(inv, COVER, counts)
+    for pb in problems[:8]:
+        ctx.broken.append(pb)
+    ctx.cov["inventory"] = {"declarations": len(inv), "covered": sum(1 for v in report.values() if isinstance(v, int)),
+                            "out_of_scope": sum(1 for v in report.values() if not isinstance(v, int)), "problems": problems,
+                            "executed": report}
+
+
 FACT_THMS = ("facts_image_loop_nest", "facts_image_index", "facts_image_stack_one_row", "facts_image_formats", "facts_trace_match", "facts_trace_model")
 
 
@@ -1081,6 +1291,15 @@ def run(ctx):
             run_race(ctx, exe_tsan)
     finally:
         finish_wide()
+    counts = {}
+    for fmt in FMT:
+        counts["img:" + fmt] = (ctx.cov.get("image_cases_per_format") or {}).get(fmt, 0) + (ctx.cov.get("wide_image_cases_per_format") or {}).get(fmt, 0)
+    for k, v in (ctx.cov.get("trace_op_histogram") or {}).items():
+        counts["tr:" + k] = v
+    counts["tr:long"] = ctx.cov.get("trace_long_intervals_seen", 0)
+    counts["tr:chunkfull"] = (ctx.cov.get("chunk_kinds_seen") or {}).get("full", 0)
+    counts["race"] = (ctx.cov.get("concurrent_first_events_tsan") or {}).get("rounds", 0)
+    inventory_check(ctx, counts)
     ctx.rule = ("images: every (w,h) in 1..6 x 1..6 plus (1,257),(257,1) (thorough: more) x six writers (writePPM, writePGM, writePFM<float|vec3f|vec3fa|vec4f>), "
                 "distinct component values, exact-size heap buffer under ASan, file decoded by an independent python reader and compared with the input and "
                 "byte-for-byte with the model; non-trivial = more than one pixel.  traces: empty log, threads without events, one event, nesting depth 0..5, "
